@@ -146,7 +146,11 @@ class SimReactor(ReactorBase):
             raise SimHang(sim.hang)
         if self.threadCallQueue:
             return   # the waker would have woken us
-        te = sim.next_event_time()
+        # the outside world exists only while the reactor is started: nothing is delivered
+        # inside iterate() calls made after it has crashed (Spinner._clean)
+        te = sim.next_event_time() if self._started else None
+        if delay is None and te is None and not self._started:
+            return
         if delay is None:
             if te is None:
                 sim.hang = "doIteration(None) with nothing pending: the reactor would sleep forever"
